@@ -7,8 +7,9 @@
 
 use bytes::Buf;
 
-use super::block::{decode_u32_slice, encode_32};
+use super::block::{BLOCK_META_SIZE, BlockIndexBuilder, BlockMeta, decode_u32_slice, encode_32};
 use super::encode::PrimitiveFixedWidthEncode;
+use super::options::{ColumnBuilderOptions, EncodeType};
 use super::row_handler::SecondaryRowHandler;
 use crate::types::{Date, F64, Interval, Timestamp, TimestampTz};
 
@@ -159,4 +160,74 @@ fn varint_roundtrip() {
     assert!(adv == n);
     kani::cover!(v >= 0xF000_0000);
     kani::cover!(v == 0x80);
+}
+
+// ---------------------------------------------------------------- U-finishblock (C18/C06): trailer
+// layout
+
+/// Stand-in for `crc32fast::hash` (inline assembly is outside CBMC): an injective-enough function
+/// of the bytes AND of their number, so that hashing the wrong span is noticed.
+fn hash_stub(data: &[u8]) -> u32 {
+    let mut h: u32 = data.len() as u32;
+    let mut i = 0;
+    while i < data.len() {
+        h = h.wrapping_mul(31).wrapping_add(data[i] as u32);
+        i += 1;
+    }
+    h
+}
+
+/// finish_block appends `data ++ block_type(4) ++ checksum_type(4) ++ checksum(8)` to the column
+/// file, the checksum covers `data ++ block_type` (the span Column::decode_block_meta re-hashes),
+/// and the index entry records where the block starts, its length with the trailer and its rows.
+/// Bounded: a 2-byte symbolic payload after a 1-byte file prefix (the layout code does not branch
+/// on the payload or on the file length), symbolic row count.
+#[kani::proof]
+#[kani::unwind(18)]
+#[kani::stub(crc32fast::hash, hash_stub)]
+fn finishblock_layout_bounded() {
+    use risinglight_proto::rowset::block_checksum::ChecksumType;
+    use risinglight_proto::rowset::block_index::BlockType;
+    let options = ColumnBuilderOptions {
+        target_block_size: 4096,
+        checksum_type: ChecksumType::Crc32,
+        encode_type: EncodeType::Plain,
+        record_first_key: false,
+    };
+    let mut builder = BlockIndexBuilder::new(options);
+    let prefix_len: usize = 1;
+    let mut column_data: Vec<u8> = vec![0x55];
+    let n: usize = 2;
+    let payload: [u8; 2] = kani::any();
+    let mut block_data: Vec<u8> = vec![payload[0], payload[1]];
+    let rows: usize = kani::any();
+    kani::assume(rows <= 1000);
+    builder.add_rows(rows);
+    builder.finish_block(
+        BlockType::Plain,
+        &mut column_data,
+        &mut block_data,
+        vec![],
+        None,
+    );
+
+    // bytes appended to the column file
+    assert!(column_data.len() == prefix_len + n + BLOCK_META_SIZE);
+    let block = &column_data[prefix_len..];
+    assert!(block[..n] == payload[..n]);
+    let mut trailer = &block[n..];
+    let mut meta = BlockMeta::default();
+    assert!(meta.decode(&mut trailer).is_ok());
+    assert!(meta.block_type == BlockType::Plain);
+    assert!(meta.checksum_type == ChecksumType::Crc32);
+    // the checksum covers everything before the checksum fields: data ++ block_type
+    assert!(meta.checksum == hash_stub(&block[..block.len() - 12]) as u64);
+
+    // index entry
+    let index = builder.into_index();
+    assert!(index.len() == 1);
+    assert!(index[0].offset == prefix_len as u64);
+    assert!(index[0].length == (n + BLOCK_META_SIZE) as u64);
+    assert!(index[0].first_rowid == 0 && index[0].row_count == rows as u32);
+    kani::cover!(payload[0] == 0xFF);
 }
